@@ -688,6 +688,28 @@ pub fn check_family<C: Circuit<F>>(
     };
     let k = m0.0;
     ctx.count(&format!("k={k}"));
+    // the k of the cost model must accommodate the synthesis it was computed from
+    {
+        let needed = s0
+            .evs
+            .iter()
+            .map(|e| match e {
+                AbsEv::Sel(_, r) | AbsEv::Fix(_, r, _) | AbsEv::Adv(_, r, _) | AbsEv::Fill(_, r, _) | AbsEv::Query(_, r) => r + 1,
+                AbsEv::Copy(_, r1, _, r2) => r1.max(r2) + 1,
+                _ => 0,
+            })
+            .max()
+            .unwrap_or(0);
+        let usable = (1usize << k).saturating_sub(s0.cs.unusable);
+        if needed > usable {
+            ctx.oracle_fail(
+                &format!("k-too-small:{name}"),
+                "the k computed by the cost model does not fit the circuit: keygen at that k fails with not_enough_rows",
+                json!({"circuit": name, "k": k, "rows_needed": needed, "usable_rows": usable, "model": format!("{m0:?}")}),
+            );
+            return None;
+        }
+    }
 
     // 2. Lean: placement from shapes, full layout from the relative log
     let (starts, digs) = match real_placement(&s0) {
@@ -726,7 +748,7 @@ pub fn check_family<C: Circuit<F>>(
         match synth(&u1, false, None) {
             Ok(t0) => {
                 ctx.count("v1_families");
-                for kn in knowns.iter().take(if ctx.quick() { 3 } else { 8 }) {
+                for kn in knowns.iter().take(if ctx.thorough() { 8 } else { 3 }) {
                     let c1 = V1Circuit { inner: &kn.circuit, unknown };
                     match synth(&c1, false, None) {
                         Ok(t) => {
@@ -887,7 +909,17 @@ pub fn check_family<C: Circuit<F>>(
                     if kn.sat {
                         match catch(|| mp.verify().is_ok()) {
                             Ok(true) => ctx.count("mock_sat_ok"),
-                            _ => ctx.count("mock_sat_class_rejected"),
+                            _ => {
+                                ctx.count("mock_sat_class_rejected");
+                                ctx.count(&format!("mock_rejected:{name}"));
+                                if name.starts_with("Unused(") {
+                                    ctx.oracle_fail(
+                                        &format!("unused-chip:{name}"),
+                                        "a plain addition cannot be satisfied in an architecture that configures a chip it does not use",
+                                        json!({"circuit": name, "class": kn.class, "witness": kn.witness}),
+                                    );
+                                }
+                            }
                         }
                     }
                     match &mock0 {
@@ -1206,16 +1238,23 @@ fn cache_case<C: Circuit<F>>(ctx: &mut Ctx, name: &str, cs: &[u64], unknown: &C)
 const FLOW_QUICK: &[&str] = &[
     "Add", "IsZero", "Select", "ToLeBits(Some(8),true)", "LowerThan(8)", "PiNative(5)", "PiCommitted",
     "FixedSeq([1,2,1,3,2,1])", "JubAdd", "Poseidon(2)", "VecLimits", "MapGet", "Base64(8,true)", "BigAdd(64)",
+    // regressions: chips configured but never used (base64 could not be proved before 1d7439c)
+    "Unused(0)", "Unused(2)", "Unused(6)",
 ];
 
 pub fn run(ctx: &mut Ctx) {
     let mut srs = SrsCache::new();
     let tier = ctx.tier.clone();
-    let nrand = if ctx.quick() { 2 } else if ctx.search() { 3 } else { 6 };
+    let nrand = if ctx.thorough() { 6 } else { 2 };
     let small_limit = if ctx.quick() { 400 } else if ctx.search() { 0 } else { 1500 };
     let only = std::env::var("C09_ONLY").ok();
     // every operation at max_bit_len 8; a few again with a larger range table
-    let mut jobs: Vec<(Op, u8)> = all_ops(&tier).into_iter().map(|o| (o, 8u8)).collect();
+    let mut jobs: Vec<(Op, u8)> = all_ops(&tier)
+        .into_iter()
+        // the failing-input search leaves out the circuits whose single synthesis takes seconds
+        .filter(|o| !ctx.search() || !matches!(o, Op::K1Msm(_) | Op::BlsMsm | Op::BlsAdd | Op::BlsDouble | Op::BigModExp(1024, _) | Op::BigMul(1024) | Op::Sha512(_) | Op::Blake2b(_) | Op::Sha3(_) | Op::Keccak(_)))
+        .map(|o| (o, 8u8))
+        .collect();
     jobs.push((Op::ToLeBits(Some(13), true), 10));
     jobs.push((Op::LowerThan(20), 12));
     if !ctx.quick() {
@@ -1235,7 +1274,7 @@ pub fn run(ctx: &mut Ctx) {
         let rel = OpRel { op: op.clone() };
         let cls = classes(&op, &mut rng, nrand);
         // the V1 planner only on small circuits in the quick tier
-        let v1 = !ctx.quick() || matches!(op, Op::Add | Op::IsZero | Op::LowerThan(8) | Op::ToLeBits(Some(8), true) | Op::PiNative(5) | Op::JubAdd | Op::Poseidon(2) | Op::VecLimits | Op::Select);
+        let v1 = ctx.thorough() || matches!(op, Op::Add | Op::IsZero | Op::LowerThan(8) | Op::ToLeBits(Some(8), true) | Op::PiNative(5) | Op::JubAdd | Op::Poseidon(2) | Op::VecLimits | Op::Select);
         let unknown = MidnightCircuit::new(&rel, Value::unknown(), Value::unknown(), Some(mbl));
         let knowns: Vec<Known<MidnightCircuit<OpRel>>> = cls
             .iter()
@@ -1248,7 +1287,9 @@ pub fn run(ctx: &mut Ctx) {
             .collect();
         ctx.count(&format!("op:{}", name.split('(').next().unwrap()));
         let demo = |ci: usize| demo_flow(&rel, &cls[ci].w);
-        let _ = check_family(ctx, &mut srs, &name, &unknown, &knowns, small_limit, &demo, mbl as usize, v1);
+        if let Err(p) = catch(|| check_family(ctx, &mut srs, &name, &unknown, &knowns, small_limit, &demo, mbl as usize, v1)) {
+            ctx.case("selfcheck", false, &format!("selfcheck no-panic {name}"), &format!("panic: {p}"));
+        }
         tables_case(ctx, &rel, &unknown);
         if let Op::FixedSeq(cs) = &op {
             cache_case(ctx, &name, cs, &unknown);
@@ -1256,7 +1297,7 @@ pub fn run(ctx: &mut Ctx) {
         // real proofs
         let flow = mbl == 8 && if ctx.quick() { FLOW_QUICK.contains(&name.as_str()) } else { true };
         if flow {
-            let (nc, mk) = if ctx.quick() { (2, 10) } else if ctx.search() { (2, 11) } else { (3, 13) };
+            let (nc, mk) = if ctx.quick() { (2, 13) } else if ctx.search() { (1, 10) } else { (3, 13) };
             prove_flow(ctx, &mut srs, &rel, &name, &cls, nc, mk);
         }
     }
@@ -1288,7 +1329,9 @@ pub fn run(ctx: &mut Ctx) {
                 circuit: MidnightCircuit::new(&rel, Value::known(vec![]), Value::known(w.clone()), Some(8)),
             })
             .collect();
-        let _ = check_family(ctx, &mut srs, &name, &unknown, &knowns, small_limit, &|_| None, 8, false);
+        if let Err(p) = catch(|| check_family(ctx, &mut srs, &name, &unknown, &knowns, small_limit, &|_| None, 8, false)) {
+            ctx.case("selfcheck", false, &format!("selfcheck no-panic {name}"), &format!("panic: {p}"));
+        }
     }
     let hashes = VK_HASHES.with(|h| h.borrow().clone());
     ctx.set_extra("vk_hashes", json!(hashes));
